@@ -120,6 +120,30 @@ fn run(input: RunInput) -> ScenFuture {
                 "mutated-own" => vec![mutate(&cert_own, &mut r)],
                 _ => vec![mutate(&cert_x, &mut r)],
             };
+            // a replayed certificate followed by padding (further certificates nobody looks at), so
+            // that the dialer's Certificate and CertificateVerify messages travel in different
+            // datagrams - and a second handshake of the adversary's, with its own certificate and
+            // key, under way at the same time: whatever the listener keeps between the two messages
+            // of one handshake belongs to that handshake
+            let padded = role == 0 && strat == "replay-x" && r.gen_bool(0.7);
+            let chain = if padded {
+                let mut pad_key = [0u8; 32];
+                r.fill(&mut pad_key);
+                let names: Vec<String> = (0..r.gen_range(1..7)).map(|i| {
+                    let len = r.gen_range(10..240usize);
+                    let mut s = format!("p{i}");
+                    while s.len() < len {
+                        s.push('.');
+                        s.push_str(&"x".repeat((len - s.len()).min(50)));
+                    }
+                    s
+                }).collect();
+                let mut c = chain;
+                c.push(gen_cert_shape(&pad_key, &names, None));
+                c
+            } else {
+                chain
+            };
             let mislabel = (strat == "replay-x-mislabelled-signature").then(|| {
                 use rustls::SignatureScheme as S;
                 [S::ECDSA_NISTP256_SHA256, S::ECDSA_NISTP384_SHA384, S::RSA_PSS_SHA256, S::RSA_PKCS1_SHA256, S::ED448, S::Unknown(0x0909), S::ED25519][r.gen_range(0..7)]
@@ -132,7 +156,26 @@ fn run(input: RunInput) -> ScenFuture {
             let claim_body = Bytes::from(format!("adv-claims-to-be-{}", hex(&x_id)));
             let outcome: String;
             if role == 0 {
-                match adv.dial(h.addr, "sim", 3_000).await {
+                let dialed = if padded {
+                    let second = adv_endpoint(&w, AdvSpec {
+                        idx: 9, port: 7300 + k as u16, chain: vec![cert_own.clone()], sign_key: k_adv, present_client_cert: true,
+                        idle_ms: 8_000, keep_alive_ms: Some(2_000), max_bidi: 100,
+                    });
+                    let off = r.gen_range(0..6_000u64);
+                    let (a, b) = tokio::join!(adv.dial(h.addr, "sim", 3_000), async {
+                        sleep_us(off).await;
+                        second.dial(h.addr, "sim", 3_000).await
+                    });
+                    if let Ok(c2) = b {
+                        c2.close(0u32.into(), b"");
+                    }
+                    retired.push(second);
+                    w.probe("padded-replay-next-to-a-second-handshake");
+                    a
+                } else {
+                    adv.dial(h.addr, "sim", 3_000).await
+                };
+                match dialed {
                     Ok(c) => {
                         outcome = "admitted".into();
                         // requests whose route, headers and body all claim to come from X
